@@ -317,3 +317,44 @@ func TestC20Held(t *testing.T) {
 	runSimCheck(t, "C20", "cleaning around a held file that is superseded by a new version (E-HIST)", files, alphabet, c20Check, depth,
 		fmt.Sprintf("all histories up to length %d over: file p (1 part), file b version 1 (1 part, predecessor p) and, after it, version 2 (2 parts); every part once, clock +25 h (x2), CleanNow (x2), Prune(0), orderly restart", depth))
 }
+
+// TestC20Hidden: pruning and cleaning around a file with a hidden name (legal with the sender's
+// include-hidden option) that is alone in its directory: its partial, companion, complete and
+// held bodies all have names that start with a dot.
+func TestC20Hidden(t *testing.T) {
+	files := []*sFile{
+		{Key: "h1", Name: "e/.h", Data: "HHHHIIII", Cuts: []int64{0, 4, 8}},
+		{Key: "k1", Name: "e2/.k", Prev: "e/.h", Data: "KKKK", Cuts: []int64{0, 4}}, // held until e/.h is delivered
+	}
+	alphabet := func(hist []sAction) []sAction {
+		var out []sAction
+		for _, f := range files {
+			for p := 0; p < len(f.Cuts)-1; p++ {
+				if histCount(hist, "recv", f.Key, p) < 1 {
+					out = append(out, sAction{Op: "recv", F: f.Key, P: p})
+				}
+			}
+		}
+		if histCount(hist, "adv12h", "", 0) < 1 {
+			out = append(out, sAction{Op: "adv12h"})
+		}
+		if histCount(hist, "adv25h", "", 0) < 1 {
+			out = append(out, sAction{Op: "adv25h"})
+		}
+		if histCount(hist, "prune0", "", 0)+histCount(hist, "prune1h", "", 0) < 2 {
+			out = append(out, sAction{Op: "prune0"}, sAction{Op: "prune1h"})
+		}
+		for _, op := range []string{"clean", "restart"} {
+			if histCount(hist, op, "", 0) < 1 {
+				out = append(out, sAction{Op: op})
+			}
+		}
+		return out
+	}
+	depth := 5
+	if vh.Thorough() {
+		depth = 7
+	}
+	runSimCheck(t, "C20", "pruning and cleaning around files with hidden names (E-HIST)", files, alphabet, c20Check, depth,
+		fmt.Sprintf("all histories up to length %d over: file e/.h (2 parts) and file e2/.k (1 part, predecessor e/.h), each alone in its directory; every part once, clock +12 h / +25 h, Prune(0) / Prune(1 h) (x2), CleanNow, orderly restart", depth))
+}
